@@ -809,6 +809,98 @@ TWINS["C13_twin_cause_local"] = ("C13", [(D, """                        if confi
                         raise TypeCheckError(msg) from cause
 
                 # Actually""")])
+SEEDS["C01_symbolic_value_truncated"] = ("C01", [(A, """            if eval_size != obj_size:""", """            eval_size = int(eval_size)
+            if eval_size != obj_size:""")], "C01.3")
+SEEDS["C02_dataclass_skip_by_inherited_marker"] = ("C02", [(D, """                already_wrapped = fn.__init__.__globals__["__name__"] == __name__""", """                already_wrapped = getattr(fn, "_jaxtyped_init", False)"""), (D, """            fn.__init__ = jaxtyped(fn.__init__, typechecker=typechecker)
+""", """            fn.__init__ = jaxtyped(fn.__init__, typechecker=typechecker)
+            fn._jaxtyped_init = True
+""")], "C02.7")
+TWINS["C02_twin_dataclass_skip_by_own_dict"] = ("C02", [(D, """                already_wrapped = fn.__init__.__globals__["__name__"] == __name__""", """                already_wrapped = fn.__dict__["__init__"].__globals__["__name__"] == __name__""")])
+SEEDS["C03_last_dtype_slot_on_class"] = ("C03", [(A, """            if not in_dtypes:
+                if len(cls.dtypes) == 1:""", """            cls._last_seen = (dtype, in_dtypes)
+            if not in_dtypes:
+                if len(cls.dtypes) == 1:""")], "C03.9")
+SEEDS["C05_push_warns_after_append"] = ("C05", [(S, """    memo_stack.append(memos)
+""", """    memo_stack.append(memos)
+    if len(memo_stack) > 500:
+        import warnings
+
+        warnings.warn("deeply nested jaxtyped contexts")
+""")], "C05.7")
+TWINS["C05_twin_push_warns_before_append"] = ("C05", [(S, """    memo_stack.append(memos)
+""", """    if len(memo_stack) > 500:
+        import warnings
+
+        warnings.warn("deeply nested jaxtyped contexts")
+    memo_stack.append(memos)
+""")])
+SEEDS["C05_enclosing_frames_consulted"] = ("C05", [(S, """def pop_shape_memo() -> None:""", """def enclosing_sizes():
+    out = {}
+    for frame in _shape_storage.memo_stack[:-1]:
+        out.update(frame[0])
+    return out
+
+
+def pop_shape_memo() -> None:""")], "C05.8")
+SEEDS["C06_reentrancy_flag_in_closure_cell"] = ("C06", [(D, """                memos = push_shape_memo(bound.arguments)
+                try:
+                    # Put this in a separate frame to make debugging easier, without
+                    # just always ending up on the `pop_shape_memo` line below.
+                    return wrapped_fn_impl(args, kwargs, bound, memos)""", """                memos = push_shape_memo(bound.arguments)
+                wrapped_fn_holder.append(None)
+                try:
+                    # Put this in a separate frame to make debugging easier, without
+                    # just always ending up on the `pop_shape_memo` line below.
+                    return wrapped_fn_impl(args, kwargs, bound, memos)""")], "C06.5")
+SEEDS["C07_args_rebound_from_binding"] = ("C07", [(D, """                bound = param_signature.bind(*args, **kwargs)
+                bound.apply_defaults()
+
+                memos = push_shape_memo(bound.arguments)""", """                bound = param_signature.bind(*args, **kwargs)
+                bound.apply_defaults()
+                args, kwargs = bound.args, bound.kwargs
+
+                memos = push_shape_memo(bound.arguments)""")], "C07.1")
+SEEDS["C08_accept_while_flattening"] = ("C08", [(P, """        if obj is None:
+            return True
+
+        single_memo""", """        if obj is None:
+            return True
+        if cls.structure is None and get_treeflatten_memo():
+            return True
+
+        single_memo""")], "C08.1")
+SEEDS["C08_leaves_from_remembered_flatten"] = ("C08", [(P, """        was_flattening = get_treeflatten_memo()
+        set_treeflatten_memo()
+        try:
+            leaves, structure = jtu.tree_flatten(obj, is_leaf=is_flatten_leaftype)
+        finally:
+            if not was_flattening:
+                clear_treeflatten_memo()
+""", """        was_flattening = get_treeflatten_memo()
+        set_treeflatten_memo()
+        try:
+            leaves, structure = jtu.tree_flatten(obj, is_leaf=is_flatten_leaftype)
+        finally:
+            if not was_flattening:
+                clear_treeflatten_memo()
+        if getattr(cls, "_last", None) is not None and cls._last[0] is obj:
+            leaves, structure = cls._last[1]
+""")], "C08.3")
+SEEDS["C09_names_loop_breaks_before_lookup"] = ("C09", [(P, """                for identifier in pieces:
+                    try:
+                        prev_structure = pytree_memo[identifier]""", """                for identifier in pieces:
+                    if named_pytree is None:
+                        break
+                    try:
+                        prev_structure = pytree_memo[identifier]""")], "C09.1")
+SEEDS["C10_uninstall_forgets_typechecker"] = ("C10", [(H, """            sys.meta_path.remove(self.hook)
+        except ValueError:
+            pass  # already removed
+""", """            sys.meta_path.remove(self.hook)
+        except ValueError:
+            pass  # already removed
+        Typechecker.lookup.pop(self.hook._typechecker.get_hash(), None)
+""")], "C10.6")
 SEEDS["C18_code_memo_blind_to_checker"] = ("C18", [(H, """class Typechecker:
     lookup = {}
 """, """_compiled_code = {}
